@@ -205,6 +205,9 @@ def entry_points(n, conn, seed):
     prep.h(0)
     prep.cx(0, n)
     ql = list(range(1, n + 1))
+    gp = Graph.linear(n)
+    ge = Graph(n)
+    ge.add_edge(0, 1)
     from .. import tomo
     smc = T.stabilizer_measurement_circuit(QuantumCircuit(n), Stabilizer((R.copy(), S.copy(), ph.copy())), conn)
     counts = {tomo.key_of(b, n): 3 + (b * 7 + seed) % 11 for b in range(1 << n) if (b + seed) % 3}
@@ -232,7 +235,10 @@ def entry_points(n, conn, seed):
         ("Stabilizer.to_list", lambda: st.to_list(), [st]),
         ("Stabilizer.expand", lambda: st.expand(), [st]),
         ("find_local_clifford_layer", lambda: fl.find_local_clifford_layer(st.R, st.S, g), [st, g]),
-        ("Graph.local_complemented", lambda: g.local_complemented(0), [g]),
+    ] + [(f"Graph.local_complemented[{v}]", (lambda v=v: g.local_complemented(v)), [g]) for v in range(n)] + [
+        ("Graph.local_complemented[path-end]", lambda: gp.local_complemented(0), [gp]),
+        ("Graph.local_complemented[isolated]", lambda: ge.local_complemented(n - 1), [ge]),
+        ("Graph.copy", lambda: g.copy(), [g]),
     ]
     if n <= 3:
         fcs = T.full_state_tomography_circuits(QuantumCircuit(n), conn)
@@ -268,6 +274,15 @@ def config_job(args):
         # sharing with the ARGUMENTS is allowed (Stabilizer((R,S)) keeps R; in-place sign repair returns its own circuit)
         out.append(("C13.separation", not shared, f"sep:{name}:{n}:{conn}",
                     f"{name} on {n}-{conn}: the result shares mutable objects with module state (caches): {shared[:4]}", rp))
+        # aliasing between a result and the caller's ARGUMENTS: an edit of the returned object would silently edit the argument.  The one place where the library keeps its
+        # argument by design is the Stabilizer constructor (the caller's matrices / the graph's adjacency matrix become the object's data); everywhere else results are new objects
+        if not name.startswith("Stabilizer("):
+            argobjs = {}
+            for a in snapargs:
+                argobjs.update(reach_mutable(a))
+            sh_args = [type(o).__name__ for i, o in reach_mutable(r1).items() if i in argobjs]
+            out.append(("C13.result_separate_from_arguments", not sh_args, f"argsep:{name}:{n}:{conn}",
+                        f"{name} on {n}-{conn}: the result shares mutable objects with the call's arguments ({sh_args[:4]}): editing the result edits the caller's object", rp))
         # mutate everything reachable from the result EXCEPT objects that are (reachable from) the call's own arguments: changing those
         # changes the arguments of the next call, which the property does not speak about
         argreach = set()
